@@ -342,6 +342,24 @@ func ruleUpgradeOrder(c *eng.Ctx) {
 				c.Ok(rule, "upgradeRepository:remove-config-before-saving-new-config", call.Pos(), "the old config is removed only after the new one was saved")
 			}
 		}
+		// where the backend replaces a file atomically the config is never absent: a Remove that
+		// precedes the save lies behind Properties().HasAtomicReplace == false
+		atomicF := c.P.Field(pkgBackend+".Properties", "HasAtomicReplace")
+		notAtomic := eng.BoolEdges(fn, func(v ssa.Value) bool {
+			if f, ok := v.(*ssa.Field); ok && atomicF != nil && eng.FieldVar(f.X.Type(), f.Field) == atomicF {
+				return true
+			}
+			return atomicF != nil && eng.LoadsField(v, atomicF)
+		}, false)
+		for _, call := range eng.Calls(fn) {
+			if !eng.IsMethodOf(call, be, "Remove") {
+				continue
+			}
+			ci := call.(ssa.Instruction)
+			if len(saves) > 0 && eng.FindPath(eng.Entry(fn), ci, eng.SuccessCut(saves...)) != nil {
+				c.MustPass(rule, "upgradeRepository:early-remove-only-without-atomic-replace", eng.Entry(fn), ci, eng.NewCut().AddEdges(notAtomic...), "the backend cannot replace a file atomically (HasAtomicReplace is false)")
+			}
+		}
 		for _, r := range eng.Returns(fn) {
 			rv := eng.RetVal(r, 0)
 			if c.P.MayBeNil(rv) {
@@ -404,8 +422,20 @@ func ruleUpgradeOrder(c *eng.Ctx) {
 					removes = append(removes, call)
 				}
 			}
+			atomicF := c.P.Field(pkgBackend+".Properties", "HasAtomicReplace")
+			isAtomic := func(v ssa.Value) bool {
+				if f, ok := v.(*ssa.Field); ok && atomicF != nil && eng.FieldVar(f.X.Type(), f.Field) == atomicF {
+					return true
+				}
+				return atomicF != nil && eng.LoadsField(v, atomicF)
+			}
 			for _, s := range resave {
-				c.MustPass(rule, "UpgradeRepo:leftover-removed→re-upload-old-config", eng.After(ui), s.(ssa.Instruction), eng.CallCut(removes...), "be.Remove(config) executed unconditionally before the old config is uploaded again")
+				c.MustPass(rule, "UpgradeRepo:leftover-removed→re-upload-old-config", eng.After(ui), s.(ssa.Instruction), eng.Union(eng.CallCut(removes...), eng.NewCut().AddEdges(eng.BoolEdges(fn, isAtomic, true)...)), "be.Remove(config) executed before the old config is uploaded again, unless the backend replaces files atomically")
+			}
+			// where files are replaced atomically the failed upgrade left the old config in place:
+			// the rollback must not remove it, its own upload may fail as well (genuine defect, fixed)
+			for _, rm := range removes {
+				c.MustPass(rule, "UpgradeRepo:rollback-removes-only-without-atomic-replace", eng.After(ui), rm.(ssa.Instruction), eng.NewCut().AddEdges(eng.BoolEdges(fn, isAtomic, false)...), "the backend cannot replace a file atomically (HasAtomicReplace is false)")
 			}
 			for _, s := range resave {
 				okRaw := false
